@@ -256,11 +256,54 @@ func clip(b []byte, n int) string {
 	return string(b)
 }
 
-// kindClass strips the formatter name etc.: the class-level part of a finding key.
+// kindClass is the class-level part of a finding key.
 func kindClass(kind string) string { return kind }
 
+// Derived reports whether a differing output kind is only the CONSEQUENCE of another differing kind
+// of the same input (a formatted file differs because the plan differs, a sum because the file list
+// does): only the most upstream difference is reported, so that one root cause gives one key.
+// differs is the set of all differing kinds of the input.
+func Derived(kind string, differs map[string]bool) bool {
+	up := func(ks ...string) bool {
+		for _, k := range ks {
+			if differs[k] {
+				return true
+			}
+		}
+		return false
+	}
+	switch {
+	case kind == "plan.cmds":
+		return up("changes")
+	case kind == "plan.full":
+		return up("changes", "plan.cmds")
+	case strings.HasPrefix(kind, "fmt."):
+		return up("changes", "plan.cmds", "plan.full")
+	case kind == "plan.sum":
+		return up("changes", "plan.cmds", "plan.full", "fmt.default")
+	}
+	if i := strings.Index(kind, "."); i > 0 {
+		p := kind[:i]
+		switch kind[i+1:] {
+		case "sum":
+			return up(p + ".files")
+		case "newhashfile", "sumfile", "validate":
+			return up(p+".files", p+".sum")
+		}
+	}
+	return false
+}
+
 func reportRep(c *rt.Ctx, leg, name, dialect string, cs Case, first map[string][]byte, mm []mismatch) {
+	differs := map[string]bool{}
 	for _, m := range mm {
+		differs[m.kind] = true
+	}
+	for _, m := range mm {
+		if Derived(m.kind, differs) {
+			c.Count(leg+":derived-differences-not-reported-separately", 1)
+			continue
+		}
 		cs := cs
 		cs.Kind = m.kind
 		what := fmt.Sprintf("%s: output %q differs between run 0 and run %d of the same input in one process: %s", name, m.kind, m.rep, firstDiff(m.a, m.b))
@@ -396,8 +439,12 @@ func runRep(c *rt.Ctx, ins []*Input, dirs []*DirInput, reps int) {
 			order := r.Perm(len(d.Files))
 			got := DirOutputs(d, order, scratch)
 			c.Count("dir:write-orders", 1)
+			differs := map[string]bool{}
 			for _, k := range kinds(first[i]) {
-				if string(canon(k, first[i][k])) != string(canon(k, got[k])) {
+				differs[k] = string(first[i][k]) != string(got[k])
+			}
+			for _, k := range kinds(first[i]) {
+				if differs[k] && !Derived(k, differs) {
 					pc := cs
 					pc.Leg, pc.DirPerm, pc.Kind = "dirperm", order, k
 					c.Violation("dirperm|"+k, fmt.Sprintf("%s: %q depends on the order in which the files were written: %s", d.Name, k, firstDiff(first[i][k], got[k])), pc,
@@ -550,8 +597,12 @@ func replay(c *rt.Ctx, raw json.RawMessage) {
 			reportRep(c, "dir", d.Name, "dir", cs, first, mm)
 			if cs.DirPerm != nil {
 				got := DirOutputs(d, cs.DirPerm, c.Scratch)
+				differs := map[string]bool{}
 				for _, k := range kinds(first) {
-					if string(canon(k, first[k])) != string(canon(k, got[k])) {
+					differs[k] = string(first[k]) != string(got[k])
+				}
+				for _, k := range kinds(first) {
+					if differs[k] && !Derived(k, differs) {
 						c.Violation("dirperm|"+k, fmt.Sprintf("%s: %q depends on the write order: %s", d.Name, k, firstDiff(first[k], got[k])), cs, nil)
 						fmt.Println("VIOLATED:", k, firstDiff(first[k], got[k]))
 					}
